@@ -413,32 +413,49 @@ func init() {
 // TODO: we should probably avoid re-spawning the same types if the TypeSystem
 // has them, and test that that works as expected
 
+// newInferTypeSystem returns a fresh TypeSystem holding only the prelude types.
+// Every top-level inference gets its own, so that inferring a schema neither
+// depends on nor changes process-wide state: repeated or concurrent
+// Prototype/Wrap calls with a nil schema behave like the first one.
+func newInferTypeSystem() *schema.TypeSystem {
+	ts := new(schema.TypeSystem)
+	ts.Init()
+	ts.Accumulate(schema.SpawnBool("Bool"))
+	ts.Accumulate(schema.SpawnInt("Int"))
+	ts.Accumulate(schema.SpawnFloat("Float"))
+	ts.Accumulate(schema.SpawnString("String"))
+	ts.Accumulate(schema.SpawnBytes("Bytes"))
+	ts.Accumulate(schema.SpawnLink("Link"))
+	ts.Accumulate(schema.SpawnAny("Any"))
+	return ts
+}
+
 // inferSchema can build a schema from a Go type
-func inferSchema(typ reflect.Type, level int) schema.Type {
+func inferSchema(ts *schema.TypeSystem, typ reflect.Type, level int) schema.Type {
 	if level > maxRecursionLevel {
 		panic(fmt.Sprintf("inferSchema: refusing to recurse past %d levels", maxRecursionLevel))
 	}
 	switch typ.Kind() {
 	case reflect.Bool:
-		return schemaTypeBool
+		return ts.TypeByName("Bool")
 	case reflect.Int64:
-		return schemaTypeInt
+		return ts.TypeByName("Int")
 	case reflect.Float64:
-		return schemaTypeFloat
+		return ts.TypeByName("Float")
 	case reflect.String:
-		return schemaTypeString
+		return ts.TypeByName("String")
 	case reflect.Struct:
 		// these types must match exactly since we need symmetry of being able to
 		// get the values an also assign values to them
 		if typ == goTypeCid || typ == goTypeCidLink {
-			return schemaTypeLink
+			return ts.TypeByName("Link")
 		}
 
 		fieldsSchema := make([]schema.StructField, typ.NumField())
 		for i := range fieldsSchema {
 			field := typ.Field(i)
 			ftyp := field.Type
-			ftypSchema := inferSchema(ftyp, level+1)
+			ftypSchema := inferSchema(ts, ftyp, level+1)
 			fieldsSchema[i] = schema.SpawnStructField(
 				field.Name, // TODO: allow configuring the name with tags
 				ftypSchema.Name(),
@@ -452,35 +469,42 @@ func inferSchema(typ reflect.Type, level int) schema.Type {
 		if name == "" {
 			panic("TODO: anonymous composite types")
 		}
+		if existing := ts.TypeByName(name); existing != nil {
+			// the same type reached a second time within this inference
+			return existing
+		}
 		typSchema := schema.SpawnStruct(name, fieldsSchema, nil)
-		defaultTypeSystem.Accumulate(typSchema)
+		ts.Accumulate(typSchema)
 		return typSchema
 	case reflect.Slice:
 		if typ.Elem().Kind() == reflect.Uint8 {
 			// Special case for []byte.
-			return schemaTypeBytes
+			return ts.TypeByName("Bytes")
 		}
 
 		nullable := false
 		if typ.Elem().Kind() == reflect.Ptr {
 			nullable = true
 		}
-		etypSchema := inferSchema(typ.Elem(), level+1)
+		etypSchema := inferSchema(ts, typ.Elem(), level+1)
 		name := typ.Name()
 		if name == "" {
 			name = "List_" + etypSchema.Name()
 		}
+		if existing := ts.TypeByName(name); existing != nil {
+			return existing
+		}
 		typSchema := schema.SpawnList(name, etypSchema.Name(), nullable)
-		defaultTypeSystem.Accumulate(typSchema)
+		ts.Accumulate(typSchema)
 		return typSchema
 	case reflect.Interface:
 		// these types must match exactly since we need symmetry of being able to
 		// get the values an also assign values to them
 		if typ == goTypeLink {
-			return schemaTypeLink
+			return ts.TypeByName("Link")
 		}
 		if typ == goTypeNode {
-			return schemaTypeAny
+			return ts.TypeByName("Any")
 		}
 		panic("bindnode: unable to infer from interface")
 	}
